@@ -14,35 +14,36 @@ Definition substr (s : bytes) (pos count : nat) : bytes := firstn count (skipn p
 Inductive fam := V4 | V6.
 Record parsed := mkParsed { p_fam : fam; p_host : bytes; p_port : bytes; p_colon : bool }.
 
-(* AddressParser::AddressParser; None = invalid_argument("Invalid port") *)
+(* AddressParser::AddressParser; None = std::invalid_argument.  A bracket anywhere makes the text a bracketed IPv6
+   literal, which must be "[" host "]" optionally followed by ":" port and nothing else (fix of the second seeding round:
+   before, text in front of "[" shifted the host, and text behind "]" without a colon was ignored). *)
 Definition address_parser (data : bytes) : option parsed :=
-  let endp := find_char "]"%char data in
-  let startp := find_char "["%char data in
-  let v6 := match startp, endp with Some s, Some e => Nat.ltb s e | _, _ => false end in
-  if v6 then
-    match startp, endp with
-    | Some s, Some e =>
-        let has_colon := match find_char ":"%char (skipn e data) with Some _ => true | None => false end in
-        let host := substr data s (e + 1) in
-        if has_colon then
-          let port := skipn (e + 2) data in
-          match port with [] => None | _ => Some (mkParsed V6 host port true) end
-        else Some (mkParsed V6 host [] false)
-    | _, _ => None
-    end
-  else
-    match find_char ":"%char data with
-    | Some c =>
-        let port := skipn (c + 1) data in
-        match port with [] => None | _ => Some (mkParsed V4 (firstn c data) port true) end
-    | None => Some (mkParsed V4 data [] false)
-    end.
+  match find_char "["%char data, find_char "]"%char data with
+  | None, None =>
+      match find_char ":"%char data with
+      | Some c =>
+          let port := skipn (c + 1) data in
+          match port with [] => None | _ => Some (mkParsed V4 (firstn c data) port true) end
+      | None => Some (mkParsed V4 data [] false)
+      end
+  | Some O, Some e =>
+      if Nat.ltb e 2 then None                      (* "[]" *)
+      else
+        let host := firstn (e + 1) data in
+        match skipn (e + 1) data with
+        | [] => Some (mkParsed V6 host [] false)
+        | c :: port => if ascii_eqb c ":" then match port with [] => None | _ => Some (mkParsed V6 host port true) end
+                       else None
+        end
+  | _, _ => None
+  end.
 
-(* strtol(port, &end, 10) with "*end != 0 || port < 0 || port > 65535" rejected; an embedded NUL
-   ends the C string *)
+(* a port is a non-empty string of decimal digits with a value up to 65535 (strtol on it; before the fix of the second
+   seeding round strtol alone decided: leading blanks, a sign and "-0" were accepted) *)
 Fixpoint until_nul (s : bytes) : bytes :=
   match s with [] => [] | c :: r => if ascii_eqb c c_nul then [] else c :: until_nul r end.
 Definition port_parse (s : bytes) : option N :=
+  if negb (forallb is_digit s) then None else
   match strtol_all 10 (until_nul s) with
   | Some z => if (z <? 0)%Z || (65535 <? z)%Z then None else Some (Z.to_N z)
   | None => None
